@@ -240,7 +240,8 @@ func (s *Solver) solveWith(sp *Specs, o *Obligation, which []int, res *SolveResu
 		res.Status, res.Backend = status, solvers[0].name
 		if status != "unsat" {
 			res.Status = "not-provable"
-		} else if os.Getenv("GCV_KEEP") != "" {
+		}
+		if os.Getenv("GCV_KEEP") != "" {
 			keep = true
 		}
 		return res
